@@ -1,0 +1,36 @@
+//go:build verif
+
+package core
+
+// Contracts for the list helpers used by session listing (property C40).
+// Comment-only file: compiled only under the "verif" build tag, contains no
+// code. The "//@" lines are read by govc.
+
+// Copying a list yields a new backing array of the same length holding the
+// same elements (nil stays nil); nothing is written.
+//@ func CopyConflicts
+//@   modifies
+//@   ensures[copy] len(result) == len(conflicts) && (conflicts == nil ==> result == nil) && (conflicts != nil ==> result != nil && fresh(result))
+//@   ensures[copy] forall i in 0..len(conflicts) :: result[i] == conflicts[i]
+
+//@ func CopyProblems
+//@   modifies
+//@   ensures[copy] len(result) == len(problems) && (problems == nil ==> result == nil) && (problems != nil ==> result != nil && fresh(result))
+//@   ensures[copy] forall i in 0..len(problems) :: result[i] == problems[i]
+
+// Trusted (sort.Sort is outside the verifier's reach): sorting writes only the
+// elements of the slice it is given.
+//@ func SortConflicts
+//@   opaque
+//@   modifies conflicts[*]
+
+//@ func SortProblems
+//@   opaque
+//@   modifies conflicts[*]
+
+// A slim conflict is a new object with the same root path; the original is not
+// written.
+//@ func (*Conflict).Slim
+//@   requires c != nil
+//@   modifies
+//@   ensures[slim] result != nil && fresh(result) && result.Root == c.Root
